@@ -133,5 +133,20 @@ def run_case(case, obs) -> None:  # noqa: C901, PLR0912, PLR0915
         judge("project_onto_cotangent_space", s.project_onto_cotangent_space(raw.copy(), fresh()), pr @ raw, 1e-8)
     if m.riemannian:
         judge("metric", np.asarray(s.metric(fresh()).array), m.ref_metric(q), 1e-8)
+    # a live system's metric is reassigned by the metric adapters: values and derivatives must follow the new metric
+    if spec["sys"] in zoo.TRACTABLE:
+        new_arg, new_dense = zoo.const_metric(str(rng.choice(["diag", "dense", "scaled", "chol_lower", "eig", "lowrank_plus"])), m.dim, rng)
+        s.metric = new_arg
+        m.metric_dense = new_dense
+        if m.constrained:
+            p = m.ref_projector(q) @ p
+        tagbase = f"{cname}:after-metric-reassignment"
+        judge("h2", s.h2(fresh()), m.ref_h2(q, p), TOL_V)
+        judge("h", s.h(fresh()), m.ref_h(q, p), TOL_V)
+        judge("dh2_dmom", s.dh2_dmom(fresh()), zoo.fd_grad(lambda x: m.ref_h2(q, x), p, hq), TOL_D)
+        judge("dh_dpos", s.dh_dpos(fresh()), zoo.fd_grad(lambda x: m.ref_h(x, p), q, hq), TOL_D)
+        if m.constrained:
+            judge("h1", s.h1(fresh()), m.ref_h1(q), TOL_V)
+            judge("dh1_dpos", s.dh1_dpos(fresh()), zoo.fd_grad(m.ref_h1, q, hq), TOL_D)
     obs.token(spec["sys"], mk, spec.get("constr", "-"), conv_key(spec))
     obs.sample({"sys": spec["sys"], "metric": mk, "constr": spec.get("constr"), "dim": spec["dim"], "conv": conv_key(spec)})
